@@ -103,7 +103,8 @@ func (c11) Plan(tier string, seed int64) []mon.Workload {
 		{Name: "after-error", N: rnd / 4},
 		{Name: "alias-pairs", N: int64(len(c11AliasOps) * len(c11AliasKeys) * len(c11AliasKeys) * 3), Exhaustive: true},
 		{Name: "shared-parts", N: int64(len(c11SharedBuilds) * len(c11SharedUses)), Exhaustive: true},
-		{Name: "string-edges", N: int64(len(c11EdgeOps) * len(c11EdgeVals) * 5), Exhaustive: true}}
+		{Name: "string-edges", N: int64(len(c11EdgeOps) * len(c11EdgeVals) * 5), Exhaustive: true},
+		{Name: "read-move-op", N: int64(len(c11RMReads) * len(c11RMMoves) * len(c11RMOps) * 3), Exhaustive: true}}
 }
 
 // string-edges (exhaustive): the string builtins on subjects whose ENDS are
@@ -114,6 +115,45 @@ var c11EdgeVals = []string{"\u00a0pad\u00a0", "\u3000x\u2003", "\u0085y\u2028", 
 	"x", "", "  ", "àé ß ǆ i", "%E4%B8%96+x%20", "%zz", "a%", "\v\fz\r\n", "xxaxx", "\u00a0"}
 var c11EdgeOps = []string{"trim(k)", "trim(k, \"\")", "trim(k, \" \")", "trim(k, \"x\u00a0\")", "uppercase(k)", "url_decode(k)", "replace(k, \"^\\\\s+\", \"<\")", "cast(k, \"str\")",
 	"strfmt(out, \"%s|%q|%d\", k, k, len(k))", "trim(k)\ntrim(k, \"p\")\nuppercase(k)"}
+
+// read-move-op (exhaustive): a read of the key k (every way a script can read
+// a point key, or none), then the key is moved away, removed or replaced
+// (rename, drop, rename another key onto it ...), then - with nothing in
+// between - each builtin of the property operates on k. What the builtin
+// finds is what the point holds at that moment; a key that is gone is a
+// silent no-op that fabricates nothing.
+var c11RMReads = []string{"", "x = k", "x = get_key(k)", "x = len(k)", "if k == 1 {\n}", "printf(\"%v\\n\", k)", "strfmt(y, \"%v\", k)", "x = [k, k]", "for e in [1, 2] {\n  x = k\n}", "x = k\nx = o", "x = o\nx = k"}
+var c11RMMoves = []string{"rename(nw, k)", "drop_key(k)", "rename(nw, k)\nrename(k, o)", "rename(o, k)", "set_tag(k)", "rename(nw, k)\nrename(k, nw)", "drop_key(k)\nrename(k, o)", "k2 = 1", "rename(nw, k)\nx = nw"}
+var c11RMOps = []string{"trim(k)", "uppercase(k)", "replace(k, \"a\", \"b\")", "url_decode(k)", "cast(k, \"int\")", "cast(k, \"str\")", "cast(k, \"bool\")", "cast(k, \"float\")", "add_key(k)", "set_tag(k)",
+	"rename(z, k)", "drop_key(k)", "x = load_json(k)\np(x)", "set_measurement(k)", "strfmt(k, \"%v|%v\", k, 1)", "p(len(k), get_key(k), k)", "printf(\"%v\\n\", k)", "trim(k, \"a\")"}
+
+func c11ReadMoveOp(i int64) c11Case {
+	kind := int(i % 3)
+	i /= 3
+	op := c11RMOps[int(i)%len(c11RMOps)]
+	i /= int64(len(c11RMOps))
+	mv := c11RMMoves[int(i)%len(c11RMMoves)]
+	rd := c11RMReads[int(i)/len(c11RMMoves)]
+	pt := ref.NewPoint("meas", map[string]string{"bt": "bystander"}, map[string]any{"b1": int64(41), "o": " other a "}, time.Unix(1700000123, 0))
+	switch kind {
+	case 0:
+		pt.Fields["k"] = " abc a%41 "
+	case 1:
+		pt.Fields["k"] = int64(7)
+	case 2:
+		pt.Tags["k"] = "tag a "
+	}
+	text := rd + "\n" + mv + "\n" + op + "\np(get_key(k), get_key(nw), get_key(o), get_key(z), get_key(y), get_key(b1))\n"
+	o := drive.Parse("read-move-op", text)
+	if o.Err != nil {
+		panic("c11: read-move-op program does not parse: " + text + ": " + o.Err.Error())
+	}
+	l, err := gt.FromStmts(o.Stmts)
+	if err != nil {
+		panic(err)
+	}
+	return c11Case{Stmts: gt.CloneStmts(l), Point: pt, Cell: "read-move-op"}
+}
 
 func c11EdgeCase(i int64) c11Case {
 	where := int(i % 5)
@@ -425,6 +465,10 @@ func (k c11) Describe(c *mon.Ctx, workload string, i int64) any {
 		}
 		return map[string]any{"source": gt.Print(gt.ParenthesizeStmts(cs.Stmts), nil)}
 	}
+	if workload == "read-move-op" {
+		cs := c11ReadMoveOp(i)
+		return map[string]any{"source": gt.Print(gt.ParenthesizeStmts(cs.Stmts), nil), "point": cs.Point.Show()}
+	}
 	if workload == "string-edges" {
 		cs := c11EdgeCase(i)
 		if cs.Skip {
@@ -502,6 +546,11 @@ func (k c11) Run(c *mon.Ctx, workload string, i int64) {
 		if cs.Skip {
 			return
 		}
+		runBuiltinCase(c, cs.Stmts, cs.Point, cs.Cell, ref.Merge(ref.ProbeFuncs(), ref.FieldFuncs()), "c11.p")
+		return
+	}
+	if workload == "read-move-op" {
+		cs := c11ReadMoveOp(i)
 		runBuiltinCase(c, cs.Stmts, cs.Point, cs.Cell, ref.Merge(ref.ProbeFuncs(), ref.FieldFuncs()), "c11.p")
 		return
 	}
